@@ -1,5 +1,5 @@
 (* C15 MODEL (definitions only): pkg/datamodeldiagram/datamodelview.go
-     UniqueVarForAppName, getNames, DrawRelation, DrawPrimitive, DrawTuple, DrawEnum (header only),
+     UniqueVarForAppName, getNames, DrawRelation, DrawPrimitive, DrawTuple, DrawEnum (header and item lines),
      DrawRelationship, GenerateDataView
    transliterated statement by statement, parameterised by the shape table Gen/DmShape.v.
 
@@ -8,13 +8,16 @@
    by the list of its '.'-free chunks (`str` = what strings.Split(s, ".") returns, never []); a chunk
    (`atom`) is an opaque positive owned by the harness, 1 being the empty chunk.  With that reading
    Split is the identity, Join is concatenation (Join of no part is ""), and `s != ""` is `s <> [1]`.
-   Application names (JoinAppName) never contain '.' in parser output; they are single atoms.
+   Application names (JoinAppName) are strings like any other: a name written with %2E contains '.' and is
+   a list of several chunks (round 3; before, application names were single atoms).
 
    Abstractions (stated in notes/C15.md): Go map iteration followed by sort.Strings is replaced by the
    harness presenting entities and fields in sort.Strings order (all theorems hold for every order);
    the nested relationship map is one map keyed by the pair (from alias, to alias) - the empty inner
    maps the code creates have no output; aliases "_<n>" are the numbers n, compared as decimal strings
-   where the code sorts them; enum item lines, the title and the PlantUML header are not modelled. *)
+   where the code sorts them; the title and the PlantUML header are not modelled.  Enum items: Go ranges over
+   the map entity.Items; the harness presents the items in an order consistent with that iteration (for equal
+   values the name that `valToName[val] = name` wrote last comes last) - the adversarial map order of DESIGN.md. *)
 From Coq Require Import List PeanoNat PArith ZArith Bool Decimal.
 Import ListNotations.
 Require Import Verif.DataModel.DmShapeTypes.
@@ -38,8 +41,8 @@ Definition split_args (s:str) : list str := map (fun a => [a]) s.
 
 (* ---------- input: projection of *sysl.Module read by GenerateDataView ---------- *)
 Record ref := {
-  r_ctx : atom;                 (* JoinAppName(typeRef.Context.Appname); eps when absent *)
-  r_app : option atom;          (* Some (JoinAppName ref.Appname) iff ref.Appname.Part != nil *)
+  r_ctx : str;                  (* JoinAppName(typeRef.Context.Appname); "" = empty_str when absent *)
+  r_app : option str;           (* Some (JoinAppName ref.Appname) iff ref.Appname.Part != nil *)
   r_parts : list str;           (* ref.Appname.Part, element by element (printed by DrawRelation for a short path) *)
   r_path : list str             (* ref.Path *)
 }.
@@ -52,11 +55,12 @@ Inductive fty :=
 | FOther.                       (* no type, tuple (re-nested), map, one_of ... *)
 Definition fields := list (positive * fty).         (* attrNames after sort.Strings; names opaque *)
 Inductive tdef :=
-| DRel (fs:fields) | DTuple (fs:fields) | DPrim (p:nat) | DEnum
+| DRel (fs:fields) | DTuple (fs:fields) | DPrim (p:nat)
+| DEnum (items:list (positive * Z))   (* entity.Items in (a possible) map iteration order: name, value *)
 | DOther                        (* Type != nil but none of the four: union, non-primitive alias, ... *)
 | DNil.                         (* Type == nil : goes to ignoredTypes *)
-Record entity := { e_app : atom; e_name : str; e_def : tdef }.
-Definition e_key (e:entity) : str := e_app e :: e_name e.      (* JoinAppName(app.Name) + "." + typeName *)
+Record entity := { e_app : str; e_name : str; e_def : tdef }.
+Definition e_key (e:entity) : str := e_app e ++ e_name e.      (* JoinAppName(app.Name) + "." + typeName *)
 
 (* ---------- output ---------- *)
 Inductive card := CBlank | CMany | COne.            (* " " | "0..*" | "1..1 " *)
@@ -71,6 +75,7 @@ Inductive chead := HClass | HPrim (p:nat) | HEnum.
 Inductive item :=
 | IClass (alias:nat) (name:str) (h:chead)
 | IField (f:positive) (l:flabel)
+| IItem (n:positive)            (* a line of an enum block: the name of an enumerator *)
 | IEnd
 | IEdge (from to:nat) (c:card) (relation_arrow:bool).
 
@@ -129,19 +134,23 @@ Definition has_type (tm:list entity) (k:str) : bool := match find_type tm k with
 Definition mem_str (k:str) (l:list str) : bool := existsb (str_eqb k) l.
 
 (* ---------- getNames ---------- *)
-Definition get_names (e:ety) : atom * list str * lname * bool :=
+Definition get_names (e:ety) : str * list str * lname * bool :=
   match e with
-  | EPrim p => (eps, [], LP p, true)          (* path = [label], never inspected when isPrimitiveList *)
+  | EPrim p => (empty_str, [], LP p, true)    (* path = [label], never inspected when isPrimitiveList *)
   | ERef r =>
       let app := match r_app r with Some a => a | None => r_ctx r end in   (* `len(path) > 1` reads the still-nil result *)
       let pl := join (r_path r) in
-      let label := if Pos.eqb app (r_ctx r) || Pos.eqb app eps then pl else app :: pl in
+      let label := if str_eqb app (r_ctx r) || is_empty_str app then pl else app ++ pl in
       (app, r_path r, LN label, false)
-  | EOther => (eps, [], LN empty_str, false)
+  | EOther => (empty_str, [], LN empty_str, false)
   end.
 
 (* ---------- DrawRelation ---------- *)
-Definition draw_rel_field (sh:shape) (tm:list entity) (eapp:atom) (enc:nat) (s:st) (f:positive * fty)
+(* entityApp := strings.Split(viewParam.EntityName, ".")[0] : the FIRST CHUNK of the name, which is the
+   application only when the application name has no '.' *)
+Definition entity_app (e:entity) : str := [hd eps (e_key e)].
+
+Definition draw_rel_field (sh:shape) (tm:list entity) (eapp:str) (enc:nat) (s:st) (f:positive * fty)
   : outcome (st * list item) :=
   match snd f with
   | FRef r =>
@@ -149,10 +158,10 @@ Definition draw_rel_field (sh:shape) (tm:list entity) (eapp:atom) (enc:nat) (s:s
       | p0 :: p1 :: _ =>
           let tapp := match r_app r with Some a => a | None => eapp end in
           let tparts := match sh_rel_target sh with
-                        | TargetAppPath => [[tapp]; p0]
+                        | TargetAppPath => [tapp; p0]
                         | _ => [p0]
                         end in
-          if sh_rel_checks_target sh && negb (has_type tm (tapp :: p0))
+          if sh_rel_checks_target sh && negb (has_type tm (tapp ++ p0))
           then Ok (s, [IField (fst f) (LFK (p0 ++ p1))])
           else
           let '(sy, tgt) := uvar (syms s) tparts in
@@ -168,7 +177,7 @@ Definition draw_rel_field (sh:shape) (tm:list entity) (eapp:atom) (enc:nat) (s:s
   | _ => Ok (s, [IField (fst f) (LPrim 0)])      (* strings.ToLower(NO_Primitive.String()) *)
   end.
 
-Fixpoint draw_rel_fields (sh:shape) (tm:list entity) (eapp:atom) (enc:nat) (s:st) (fs:fields) : outcome (st * list item) :=
+Fixpoint draw_rel_fields (sh:shape) (tm:list entity) (eapp:str) (enc:nat) (s:st) (fs:fields) : outcome (st * list item) :=
   match fs with
   | [] => Ok (s, [])
   | f :: fs' =>
@@ -184,7 +193,7 @@ Fixpoint draw_rel_fields (sh:shape) (tm:list entity) (eapp:atom) (enc:nat) (s:st
 
 Definition draw_relation (sh:shape) (tm:list entity) (s:st) (e:entity) (fs:fields) : outcome (st * list item) :=
   let '(sy, enc) := uvar (syms s) (enc_parts (sh_rel_key sh) e) in
-  match draw_rel_fields sh tm (e_app e) enc {| syms := sy; rel := rel s |} fs with
+  match draw_rel_fields sh tm (entity_app e) enc {| syms := sy; rel := rel s |} fs with
   | Panic n => Panic n
   | Ok (s', o) => Ok (s', IClass enc (e_key e) HClass :: o ++ [IEnd])
   end.
@@ -194,21 +203,33 @@ Definition draw_primitive (sh:shape) (s:st) (e:entity) (p:nat) : st * list item 
   let '(sy, enc) := uvar (syms s) (enc_parts (sh_prim_key sh) e) in
   ({| syms := sy; rel := rel s |}, [IClass enc (e_key e) (HPrim p); IEnd]).
 
-(* ---------- DrawEnum (header and closing brace) ---------- *)
-Definition draw_enum (sh:shape) (s:st) (e:entity) : st * list item :=
+(* ---------- DrawEnum ---------- *)
+(* for name, val := range entity.Items { vals = append(vals, int(val)); valToName[int(val)] = name } *)
+Fixpoint val_to_name (items:list (positive * Z)) (v:Z) (cur:positive) : positive :=
+  match items with
+  | [] => cur
+  | (n, v') :: items' => val_to_name items' v (if Z.eqb v v' then n else cur)
+  end.
+Fixpoint insert_z (x:Z) (l:list Z) : list Z :=
+  match l with [] => [x] | y :: l' => if Z.leb x y then x :: l else y :: insert_z x l' end.
+Fixpoint sort_z (l:list Z) : list Z := match l with [] => [] | x :: l' => insert_z x (sort_z l') end.   (* sort.Ints *)
+(* for _, val := range vals { WriteString(valToName[val] + "\n") } *)
+Definition enum_lines (items:list (positive * Z)) : list item :=
+  map (fun v => IItem (val_to_name items v 1%positive)) (sort_z (map snd items)).
+Definition draw_enum (sh:shape) (s:st) (e:entity) (items:list (positive * Z)) : st * list item :=
   let '(sy, enc) := uvar (syms s) (enc_parts (sh_enum_key sh) e) in
-  ({| syms := sy; rel := rel s |}, [IClass enc (e_key e) HEnum; IEnd]).
+  ({| syms := sy; rel := rel s |}, IClass enc (e_key e) HEnum :: enum_lines items ++ [IEnd]).
 
 (* ---------- DrawTuple ---------- *)
 (* the part after the switch: `if !isPrimitiveList {...} else {...}` *)
 Definition tuple_relate (sh:shape) (tm:list entity) (enc:nat) (s:st) (fname:positive) (lab:flabel)
-           (app:atom) (path:list str) (isprim:bool) (c:card) : outcome (st * list item) :=
+           (app:str) (path:list str) (isprim:bool) (c:card) : outcome (st * list item) :=
   if isprim then Ok (s, [IField fname lab])
   else match path with
        | [] => Panic 3                                  (* typeName := path[0] *)
        | p0 :: rest =>
            let '(appn, tn) := match rest with
-                              | [] => ([app], p0)
+                              | [] => (app, p0)
                               | p1 :: _ => (p0, p1)     (* appName = path[0]; typeName = path[1] *)
                               end in
            if negb (has_type tm (appn ++ tn)) && negb (has_type tm tn)
@@ -233,7 +254,7 @@ Definition draw_tuple_field (sh:shape) (tm:list entity) (ign:list str) (enc:nat)
       let '(app, path, lab, isprim) := get_names e in
       (* fullName := JoinTypePath(append([]string{appName}, path...)); a primitive element gives ".<prim>",
          which is the name of no type of a named application *)
-      if negb isprim && mem_str (join ([app] :: path)) ign then Ok (s, [IField (fst f) (LColl KSeq lab)])
+      if negb isprim && mem_str (join (app :: path)) ign then Ok (s, [IField (fst f) (LColl KSeq lab)])
       else tuple_relate sh tm enc s (fst f) (LColl KSeq lab) app path isprim CMany
   | FRef r =>
       let '(app, path, lab, isprim) := get_names (ERef r) in
@@ -304,16 +325,16 @@ Definition ignored (es:list entity) : list str := map e_key (filter is_nil es).
 
 Definition kind_matches (k:dkind) (d:tdef) : bool :=
   match k, d with
-  | KRelation, DRel _ | KTuple, DTuple _ | KPrimitive, DPrim _ | KEnum, DEnum => true
+  | KRelation, DRel _ | KTuple, DTuple _ | KPrimitive, DPrim _ | KEnum, DEnum _ => true
   | _, _ => false
   end.
 
 (* the per-application view keeps an entity iff this holds (filt = Some app : dataParam.Epname, app = JoinAppName(dataParam.App.Name)) *)
-Definition in_view (vt:viewtest) (filt:option atom) (e:entity) : bool :=
+Definition in_view (vt:viewtest) (filt:option str) (e:entity) : bool :=
   match filt with
   | None => true
   | Some a => match vt with
-              | ViewAppEq => Pos.eqb (e_app e) a      (* strings.Split(entityName, ".")[0] == appName *)
+              | ViewAppEq => str_eqb [hd eps (e_key e)] a     (* strings.Split(entityName, ".")[0] == appName *)
               | UnknownView => true
               end
   end.
@@ -328,12 +349,12 @@ Definition draw_entity (sh:shape) (tm:list entity) (ign:list str) (s:st) (isrel:
       | DRel fs => match draw_relation sh tm s e fs with Panic n => Panic n | Ok (s', o) => Ok (s', true, o) end
       | DTuple fs => match draw_tuple sh tm ign s e fs with Panic n => Panic n | Ok (s', o) => Ok (s', false, o) end
       | DPrim p => let '(s', o) := draw_primitive sh s e p in Ok (s', false, o)
-      | DEnum => let '(s', o) := draw_enum sh s e in Ok (s', false, o)
+      | DEnum items => let '(s', o) := draw_enum sh s e items in Ok (s', false, o)
       | _ => Ok (s, isrel, [])
       end
   end.
 
-Fixpoint draw_entities (sh:shape) (filt:option atom) (tm:list entity) (ign:list str) (s:st) (isrel:bool)
+Fixpoint draw_entities (sh:shape) (filt:option str) (tm:list entity) (ign:list str) (s:st) (isrel:bool)
          (es:list entity) : outcome (st * bool * list item) :=
   match es with
   | [] => Ok (s, isrel, [])
@@ -353,7 +374,7 @@ Definition init_st : st := {| syms := []; rel := [] |}.
 
 (* filt = Some app : dataParam.Epname with dataParam.App = app; es = every type of every application,
    in sort.Strings order of App.Type *)
-Definition draw_with (sh:shape) (filt:option atom) (es:list entity) : outcome (list item) :=
+Definition draw_with (sh:shape) (filt:option str) (es:list entity) : outcome (list item) :=
   let tm := type_map es in
   match draw_entities sh filt tm (ignored es) init_st false tm with
   | Panic n => Panic n
